@@ -65,6 +65,15 @@ def base(ctx, p):
         ctx.require(False, clause)
 
 
+@harness("C01.numeric")
+def numeric(ctx, p):
+    """Integer-like ids of other numeric types followed by automatic additions
+    (shares C04's concrete-pool harness; the incidence invariant is asserted there)."""
+    from . import c04
+
+    c04.numeric(ctx, p)
+
+
 def spec(tier, seed):
     if tier == "quick":
         shp = shapes.shapes_H_upto(3, 2) + shapes.shapes_H(2, 3) + shapes.shapes_H(1, 3)
@@ -86,6 +95,7 @@ def spec(tier, seed):
                 units.append(("C01.step", {"shape": s, "op": op, "P": P, "strl": True}))
     for k in ("empty", "list", "dict", "hypergraph"):
         units.append(("C01.base", {"kind": k, "shape": None}))
+    units.append(("C01.numeric", {"cls": "H", "shape": None, "op": "numeric ids"}))
     return {
         "units": units,
         "caps": {"paths": 200000 if tier == "quick" else 2000000, "wall": 600 if tier == "quick" else 3000},
